@@ -57,6 +57,11 @@ def run(ctx):
     RL.check_whole_text(ctx, 'R6.9')
     from . import c10
     c10.check_stripws_simulation(ctx, 'R6.10')
+    c10.check_operator_simulation(ctx, 'R6.14')
+    c10.check_reindent_simulation(ctx, 'R6.13', filter_name='AlignedIndentFilter', clause_lines=False)
+    # the reindent options: whatever the layout, only whitespace may change
+    c10.check_reindent_simulation(ctx, 'R6.12', option_sets=[{'comma_first': True}, {'indent_after_first': True}, {'indent_columns': True}, {'wrap_after': 4},
+                                                              {'compact': True}, {'char': '\t', 'width': 1}, {'width': 4}, {'comma_first': True, 'indent_columns': True}])
     ctx.rule('R6.11', 'the serializer changes nothing but unquoted line ends and blanks at line ends (sample texts interpreted)', floor=1)
     RF.check_serializer_sim(ctx, 'R6.11')
     ctx.rule('R6.8', 'operator spacing: the blank put behind / in front of an operator does not change how the text lexes', floor=1)
